@@ -32,7 +32,8 @@ Record sthread : Type := mkST { spc : spcT; tstep : nat; sgen : nat; sleft : nat
 
 Record sstate : Type := mkSS {
   sn : nat;                    (* number of participants; thread_count_ = sn - 1 *)
-  yld : bool;                  (* the scenario calls wait_yield *)
+  yld : nat -> nat -> bool;    (* scenario: thread t crosses its generation g with wait_yield (else wait) *)
+  ssil : nat -> bool;          (* scenario: generation g is crossed with the default NoOperation lambda (no act note) *)
   waiting : nat;               (* waiting_ *)
   sstp : nat;                  (* step_ *)
   sthr : nat -> sthread;
@@ -40,13 +41,13 @@ Record sstate : Type := mkSS {
   sacts : list (nat * nat)     (* ghost: (thread, generation) of each action, latest first *)
 }.
 
-Definition sinit (n : nat) (y : bool) (gens : list nat) : sstate :=
-  mkSS n y 0 0
+Definition sinit (n : nat) (y : nat -> nat -> bool) (sil : nat -> bool) (gens : list nat) : sstate :=
+  mkSS n y sil 0 0
        (fun t => match nth_error gens t with Some k => mkST SIdle 0 0 k | None => mkST SDone 0 0 0 end)
        [] [].
 
 Definition sset_thr (s : sstate) (t : nat) (th : sthread) : sstate :=
-  mkSS (sn s) (yld s) (waiting s) (sstp s) (upd (sthr s) t th) (sarrived s) (sacts s).
+  mkSS (sn s) (yld s) (ssil s) (waiting s) (sstp s) (upd (sthr s) t th) (sarrived s) (sacts s).
 
 Definition sstep (s : sstate) (e : event) : option sstate :=
   let (t, o) := e in
@@ -62,38 +63,46 @@ Definition sstep (s : sstate) (e : event) : option sstate :=
       | O => Some (sset_thr s t (mkST SDone (tstep th) (sgen th) 0))
       | S _ => None
       end
+  | SIdle, OLoad a v =>
+      (* the public accessor step(): step_.load(acquire), called by the harness between two crossings *)
+      if (a =? 0) && (v =? sstp s) then Some s else None
   | SEntered, OLoad a v =>
       if (a =? 0) && (v =? sstp s)
       then Some (sset_thr s t (mkST SLoaded v (sgen th) (sleft th)))
       else None
   | SLoaded, ORmw a old new =>
       if (a =? 1) && (old =? waiting s) && (new =? old + 1)
-      then Some (mkSS (sn s) (yld s) new (sstp s)
+      then Some (mkSS (sn s) (yld s) (ssil s) new (sstp s)
                       (upd (sthr s) t (mkST (if old =? sn s - 1 then SLastA else SSpin) (tstep th) (sgen th) (sleft th)))
                       (t :: sarrived s) (sacts s))
       else None
   | SLastA, OStore a v =>
       if (a =? 1) && (v =? 0)
-      then Some (mkSS (sn s) (yld s) 0 (sstp s)
-                      (upd (sthr s) t (mkST SLastB (tstep th) (sgen th) (sleft th)))
-                      (sarrived s) (sacts s))
+      then (if ssil s (sgen th)
+            then (* default NoOperation lambda: runs silently (no event) right after the store *)
+                 Some (mkSS (sn s) (yld s) (ssil s) 0 (sstp s)
+                            (upd (sthr s) t (mkST SLastC (tstep th) (sgen th) (sleft th)))
+                            (sarrived s) ((t, sgen th) :: sacts s))
+            else Some (mkSS (sn s) (yld s) (ssil s) 0 (sstp s)
+                            (upd (sthr s) t (mkST SLastB (tstep th) (sgen th) (sleft th)))
+                            (sarrived s) (sacts s)))
       else None
   | SLastB, OAct g =>
       if g =? sgen th
-      then Some (mkSS (sn s) (yld s) (waiting s) (sstp s)
+      then Some (mkSS (sn s) (yld s) (ssil s) (waiting s) (sstp s)
                       (upd (sthr s) t (mkST SLastC (tstep th) (sgen th) (sleft th)))
                       (sarrived s) ((t, sgen th) :: sacts s))
       else None
   | SLastC, ORmw a old new =>
       if (a =? 0) && (old =? sstp s) && (new =? old + 1)
-      then Some (mkSS (sn s) (yld s) (waiting s) new
+      then Some (mkSS (sn s) (yld s) (ssil s) (waiting s) new
                       (upd (sthr s) t (mkST SLeaving (tstep th) (sgen th + 1) (sleft th - 1)))
                       [] (sacts s))
       else None
   | SSpin, OLoad a v =>
       if (a =? 0) && (v =? sstp s)
       then (if v =? tstep th
-            then Some (sset_thr s t (mkST (if yld s then SYield else SSpin) (tstep th) (sgen th) (sleft th)))
+            then Some (sset_thr s t (mkST (if yld s t (sgen th) then SYield else SSpin) (tstep th) (sgen th) (sleft th)))
             else Some (sset_thr s t (mkST SLeaving (tstep th) (sgen th + 1) (sleft th - 1))))
       else None
   | SYield, OYield => Some (sset_thr s t (mkST SSpin (tstep th) (sgen th) (sleft th)))
@@ -106,8 +115,8 @@ Definition sstep (s : sstate) (e : event) : option sstate :=
 
 Definition spinrun := run sstep.
 
-Definition sreachable (n : nat) (y : bool) (gens : list nat) (s : sstate) : Prop :=
-  exists tr, spinrun (sinit n y gens) tr = Some s.
+Definition sreachable (n : nat) (y : nat -> nat -> bool) (sil : nat -> bool) (gens : list nat) (s : sstate) : Prop :=
+  exists tr, spinrun (sinit n y sil gens) tr = Some s.
 
 (** thread u has arrived in its current generation and has not yet left wait() *)
 Definition sinside (s : sstate) (u : nat) : Prop :=
